@@ -719,3 +719,92 @@ for _p, _r, _d in (("C04", "C04.R9", "rebuilding a document from its records pre
                    ("C08", "C08.R10", "records re-created by unified() keep every attribute"),
                    ("C12", "C12.R7", "the copy made by add_record carries every attribute of its source")):
     RULES.setdefault(_p, []).append(Rule(_r, "formal_attributes and extra_attributes partition a record's attributes exactly (same name set, for every record class)", 18, attribute_partition, "F-TABLE", _d))
+
+
+# ------------------------------------------------------------------------------------------ datetimes are written as they are
+TZ_APIS = {"astimezone", "utcoffset", "timestamp", "utcfromtimestamp", "fromtimestamp", "strftime", "strptime", "utctimetuple", "timetuple", "tzname", "dst"}
+
+
+def datetime_as_is(ctx: Ctx, rule):
+    """A datetime value is an instant *with its offset* (or a naive wall-clock time): the writers print `value.isoformat()` and the
+    readers parse that text back.  No code in the package converts between time zones, re-labels tzinfo, or formats through
+    strftime - any such step changes the value for offsets other than +00:00 (replace(tzinfo=utc) re-labels, it does not convert)."""
+    res = RuleResult()
+    n_iso = 0
+    for q, fi in ctx.p.functions.items():
+        if fi.module.startswith("scripts.") or isinstance(fi.node, ast.Lambda):
+            continue
+        for c in calls_in(fi.node):
+            name = call_name(c)
+            if name == "isoformat":
+                n_iso += 1
+                bad_args = [k.arg for k in c.keywords if k.arg in ("timespec",)] + (["sep"] if c.args else [])
+                res.ob("%s prints a datetime with %s" % (short(q) if q.count(".") > 2 else q, norm(c)[:50]), nontrivial=not bad_args)
+                if any(k.arg == "timespec" for k in c.keywords):
+                    res.fail(rule.id, "datetime-truncated::%s" % q, ctx.loc(q, c), "%s limits the printed precision (%s)" % (short(q), norm(c)[:50]), "microseconds are lost on the round trip")
+            tz = name in TZ_APIS and isinstance(c.func, ast.Attribute)
+            relabel = name == "replace" and any(k.arg in ("tzinfo", "microsecond", "second", "minute", "hour") for k in c.keywords)
+            if tz or relabel:
+                res.ob("%s: %s" % (short(q) if q.count(".") > 2 else q, norm(c)[:60]))
+                res.fail(rule.id, "datetime-rewritten::%s::%s" % (q, name), ctx.loc(q, c),
+                         "%s applies %s to a datetime: the value is written (or stored) as another instant / another wall-clock time than the one given" % (short(q) if q.count(".") > 2 else q, norm(c)[:50]),
+                         "09:21:00+01:00 is written as 09:21:00Z: the reloaded document differs from the original, and two documents differing only by offset reload as equal")
+    res.ob("isoformat() sites: %d; time-zone / strftime conversions in the package: none allowed" % n_iso)
+    if n_iso < 3:
+        raise AnalysisError("fewer than 3 isoformat() sites: the writers no longer print datetimes the way this rule was confirmed on")
+    return res
+
+
+for _p, _r, _d in (("C02", "C02.R11", "times survive the XML round trip with their offset"), ("C01", "C01.R13", "times survive the JSON round trip with their offset"),
+                   ("C04", "C04.R10", "a serialisation round trip is content-preserving for aware datetimes; different instants stay different"),
+                   ("C05", "C05.R11", "a datetime is stored as given"), ("C06", "C06.R11", "PROV-N prints the datetime as held"), ("C07", "C07.R10", "times are unchanged by the RDF round trip"),
+                   ("C10", "C10.R12", "the emitted xsd:dateTime lexical denotes the in-memory instant"), ("C11", "C11.R14", "loaded datetimes re-serialise to the same instant")):
+    RULES.setdefault(_p, []).append(Rule(_r, "datetimes are printed with isoformat() of the value itself: no time-zone conversion, tzinfo re-labelling or strftime anywhere in the package", 3, datetime_as_is, "F-WRITE", _d))
+
+
+# ------------------------------------------------------------------------------------------ C05.R12 / C08.R12: a literal's lexical form is never resolved against the scope
+def literal_not_resolved(ctx: Ctx, rule):
+    """Which URI a *string* denotes depends on the prefixes declared at that moment.  The normaliser resolves strings only where the
+    data model says the value is a name (attribute names, values of the reference-valued PROV attributes).  The literal converter
+    (_auto_literal_conversion) may re-home a QualifiedName object (URI-preserving) but never resolves a string or a Literal's lexical
+    form: that would make the stored value depend on the order of add_namespace and add_attributes calls."""
+    res = RuleResult()
+    q = M + ".ProvRecord._auto_literal_conversion"
+    if q not in ctx.p.functions:
+        raise AnalysisError("anchor vanished: function %s" % q)
+    n = 0
+    for q2 in ctx.helper_closure(q, 2):
+        fi = ctx.fn(q2)
+        if fi.cls != M + ".ProvRecord":
+            continue
+        g = get_cfg(ctx, q2)
+        for c in calls_in(fi.node):
+            if call_name(c) != "valid_qualified_name" or not c.args:
+                continue
+            n += 1
+            a = c.args[0]
+            ok = False
+            if isinstance(a, ast.Name):
+                nd = node_of(g, c)
+                dom = g.dominators(labels_excluded=("exc",))
+                for i in dom.get(nd.id, set()):
+                    t = g.nodes[i]
+                    if t.kind == "test" and isinstance(t.stmt.test, ast.Call) and call_name(t.stmt.test) == "isinstance" and len(t.stmt.test.args) == 2 and norm(t.stmt.test.args[0]) == a.id and "QualifiedName" in norm(t.stmt.test.args[1]) and "str" not in norm(t.stmt.test.args[1]):
+                        # on the true edge of that test
+                        ok = any(lab == "true" and (m is nd or g.exists_path(m, nd) or m.id == nd.id) for m, lab in t.succ)
+            res.ob("%s: %s resolves a value known to be a QualifiedName object: %s" % (short(q2), norm(c)[:50], ok))
+            if not ok:
+                res.fail(rule.id, "literal-resolved-against-scope::%s" % norm(a)[:30], ctx.loc(q2, c),
+                         "%s resolves %s through the bundle's namespaces although it is not known to be a QualifiedName object: a string's meaning depends on the prefixes declared at that moment" % (short(q2), norm(a)[:40]),
+                         "a record given Literal('voc:Report', xsd:QName) before add_namespace('voc', ..): unified() (which re-adds records after the namespaces) turns the literal into the name voc:Report - the unified attributes are not the union of the originals")
+    res.ob("name resolutions inside the literal converter: %d" % n, nontrivial=False)
+    return res
+
+
+for _p, _r, _d in (("C05", "C05.R12", "the stored value of a literal does not depend on when namespaces were declared"),
+                   ("C08", "C08.R12", "re-adding a record in unified() reproduces its values (the merged attributes are the union of the originals)"),
+                   ("C09", "C09.R12", "re-adding a record in flattened/update reproduces its values")):
+    RULES.setdefault(_p, []).append(Rule(_r, "the literal converter resolves only QualifiedName objects, never a string or a literal's lexical form", 1, literal_not_resolved, "F-PATH", _d))
+
+RULES.setdefault("C07", []).append(Rule("C07.R11", "lexical forms reach their datatype's parser unmodified (shared with C05.R10): the RDF reader hands typed literals to the same table", 4, lexical_passthrough, "F-PATH",
+                                        "xsd:string values keep leading and trailing white space through the RDF round trip"))
